@@ -20,6 +20,10 @@ type Step struct {
 	Single     bool    `json:"single,omitempty"`      // issue each op through Index/Delete/SetInternal instead of one Batch
 	ForceMerge bool    `json:"force_merge,omitempty"` // scorch: ForceMerge after the step
 	Observe    bool    `json:"observe"`
+	// schedule aids for scorch-disk trace runs (they never enter the verdict; see sw/flush.go)
+	Hold    bool `json:"hold,omitempty"`     // before the step: hold the persister between two of its rounds
+	Release bool `json:"release,omitempty"`  // after the step and its observation: let the persister go and wait (bounded) until it caught up
+	NoBatch bool `json:"no_batch,omitempty"` // nothing is issued: a pure observation point
 }
 
 type In struct {
@@ -79,9 +83,69 @@ func gen(f vh.Flags, r *vrand.R, emit func(In)) {
 			emit(in)
 		}
 	}
+	genFlush(f, r, emit)
 }
 
+// genFlush: the persister's flush-set path (NumPersisterWorkers>1 / MaxSizeInMemoryMergePerWorker>0)
+// and other non-default persister / merge-planner options, fed with bursts of unsafe multi-document
+// batches over a small id space: the persister is held between two rounds while a burst is issued,
+// so its next round finds all the burst's in-memory segments (several flush batches), most of them
+// partly obsoleted by later batches of the same burst.  Observed at the end of every burst (in-memory
+// segments) and again after the persister has merged and persisted them.
+func genFlush(f vh.Flags, r *vrand.R, emit func(In)) {
+	n := f.N(12, 500)
+	for k := 0; k < n; k++ {
+		nids := r.Range(4, 9)
+		nkeys := r.Range(1, 2)
+		var ver int64
+		var steps []Step
+		for round, rounds := 0, r.Range(2, 4); round < rounds; round++ {
+			burst := r.Range(4, 10)
+			for b := 0; b < burst; b++ {
+				st := Step{Hold: b == 0, Observe: b == burst-1 || r.Chance(1, 5), Release: b == burst-1}
+				for j, nops := 0, r.Range(1, 4); j < nops; j++ {
+					ver++
+					switch x := r.Intn(20); {
+					case x < 14:
+						st.Ops = append(st.Ops, sw.Op{Kind: "index", ID: r.Intn(nids), Ver: ver})
+					case x < 18:
+						st.Ops = append(st.Ops, sw.Op{Kind: "delete", ID: r.Intn(nids)})
+					case x < 19:
+						st.Ops = append(st.Ops, sw.Op{Kind: "setint", ID: r.Intn(nkeys), Ver: ver})
+					default:
+						st.Ops = append(st.Ops, sw.Op{Kind: "delint", ID: r.Intn(nkeys)})
+					}
+				}
+				steps = append(steps, st)
+			}
+			steps = append(steps, Step{NoBatch: true, Observe: true, ForceMerge: r.Chance(1, 6)})
+		}
+		l := sw.GenFlushLayout(r)
+		if k%4 == 3 {
+			l.PO = sw.GenPersisterOpts(r, false) // any persister options, legacy path included
+		}
+		l.Unsafe = true // a safe batch returns only after the persister's round, so segments cannot pile up behind one caller
+		if r.Chance(1, 5) {
+			l.SegVer = r.Range(11, 16)
+		}
+		emit(In{Layout: l, NIDs: nids, NKeys: nkeys, Steps: steps, Trace: true})
+	}
+}
+
+// exec runs the scorch-disk histories in a child process each: a failure inside the persister's
+// in-memory merge or the merger is a panic on a goroutine scorch started, which nothing in this
+// process could recover (the run would end as "harness crashed" without the input).
 func exec(in In) vh.Result {
+	if in.Layout.Config == "" {
+		return vh.Result{Skip: true} // a replay/corpus input of the property's other harness (c01udc)
+	}
+	if in.Trace {
+		return vh.Isolate(in, 12*time.Minute)
+	}
+	return execHere(in)
+}
+
+func execHere(in In) vh.Result {
 	idx, path, dir, err := sw.Open(in.Layout)
 	if dir != "" {
 		defer os.RemoveAll(dir)
@@ -90,9 +154,12 @@ func exec(in In) vh.Result {
 		return vh.Result{Direct: &vh.Direct{Kind: "error", Detail: "open: " + err.Error()}}
 	}
 	var rec *strace.Recorder
+	var gate *sw.PersisterGate
 	if in.Trace {
 		rec = strace.Start(path)
 		defer rec.Stop()
+		gate = sw.NewPersisterGate(rec, 3*time.Second)
+		defer gate.Release()
 	}
 	closed := false
 	defer func() {
@@ -124,7 +191,11 @@ func exec(in In) vh.Result {
 				}
 			}
 		}
-		if st.Single {
+		if st.Hold && gate != nil {
+			gate.Hold()
+		}
+		if st.NoBatch {
+		} else if st.Single {
 			for _, o := range st.Ops {
 				var err error
 				switch {
@@ -157,7 +228,15 @@ func exec(in In) vh.Result {
 			}
 			o = cf.Some(t)
 		}
-		dops, iops := sw.OpsTerms(st.Ops)
+		if st.Release && gate != nil {
+			gate.Release()
+			sw.WaitPersisted(idx, 3*time.Second)
+		}
+		var sops []sw.Op
+		if !st.NoBatch {
+			sops = st.Ops
+		}
+		dops, iops := sw.OpsTerms(sops)
 		steps = append(steps, cf.App("mkHStep", cf.List(dops), cf.List(iops), o))
 	}
 	multi := 0
@@ -184,11 +263,22 @@ func exec(in In) vh.Result {
 	idx.Close()
 	closed = true
 	tr, mm, fm, np := sw.TraceCase(rec, tg, in.NIDs, final)
+	// flush rounds of the persister: in-memory merges of >= 2 flush batches, and those in which a
+	// merged segment was partly obsoleted when the round started
+	multi, multiDrops := sw.FlushRounds(rec)
+	if in.Layout.PO != nil {
+		h := []string{"trace", "flush", fmt.Sprintf("flush:nonlegacy=%v", in.Layout.PO.NonLegacy()), fmt.Sprintf("flush:rounds_with_2+_flush_batches=%d", min(multi, 4)),
+			fmt.Sprintf("flush:such_rounds_with_partly_obsoleted_segments=%d", min(multiDrops, 4)), fmt.Sprintf("trace:mem_merges=%d", min(mm, 5)), fmt.Sprintf("trace:file_merges=%d", min(fm, 5))}
+		return vh.Result{Term: cf.App("CMulti", cf.List([]cf.T{hist, tr})), Nontrivial: nontrivial && mm > 0 && (!in.Layout.PO.NonLegacy() || multiDrops > 0), Hist: h, Traces: 1}
+	}
 	h := []string{"trace", "hist:scorch-disk", fmt.Sprintf("trace:mem_merges=%d", min(mm, 5)), fmt.Sprintf("trace:file_merges=%d", min(fm, 5)), fmt.Sprintf("trace:persists=%d", min(np, 9))}
 	return vh.Result{Term: cf.App("CMulti", cf.List([]cf.T{hist, tr})), Nontrivial: nontrivial && mm+fm > 0, Hist: h, Traces: 1}
 }
 
 func main() {
+	if vh.IsolatedChild(execHere) {
+		return
+	}
 	vh.Main(vh.Config{
 		Property:  "C01",
 		Imports:   []string{"Common.Bytes", "Scorch.Model", "Scorch.Corr"},
@@ -198,7 +288,9 @@ func main() {
 		Rule: "histories of 3-14 steps (batches of 0-6 Index/Delete/SetInternal/DeleteInternal ops, or the same ops issued singly) over 3-7 ids and 1-3 internal keys, " +
 			"each logical history run on scorch-disk (as an event trace too, with 5 persister/merge option variants, forced merges, older zap versions, bursts of unobserved batches), scorch-mem, upsidedown over gtreap/boltdb/goleveldb/moss; " +
 			"observed after every step: DocCount, Document(id) for all ids, match-all with stored version, doc-id query, GetInternal for all keys; " +
-			"non-trivial: some id written at least twice and some previously written id deleted (traces: additionally at least one merge introduced)",
+			"plus flush histories on scorch-disk with generated non-default persister options (1-4 workers, MaxSizeInMemoryMergePerWorker from 1 byte to 1 MB, naps, memory-pressure threshold) and merge-planner options: " +
+			"2-4 bursts of 4-10 unsafe batches of 1-4 ops over 4-9 ids issued while the persister is held between two rounds, observed at the end of the burst and again after the persister caught up; " +
+			"non-trivial: some id written at least twice and some previously written id deleted (traces: additionally at least one merge introduced; flush histories on the flush-set path: a persister round with >= 2 flush batches of which some segment was partly obsoleted)",
 		ShardSize: 10,
 		Workers:   6,
 	}, gen, exec)
